@@ -149,20 +149,6 @@ std::vector<std::string> const& geometry_stems()
     return stems;
 }
 
-std::shared_ptr<GeoParams const> load_geometry(std::string const& stem)
-{
-    // cache per process: geometry construction is deterministic and immutable
-    static std::map<std::string, std::shared_ptr<GeoParams const>> cache;
-    static std::mutex mu;
-    std::lock_guard<std::mutex> lock(mu);
-    auto it = cache.find(stem);
-    if (it != cache.end())
-        return it->second;
-    auto g = std::make_shared<GeoParams>(repo_root() + "/test/geocel/data/" + stem + ".org.json");
-    cache[stem] = g;
-    return g;
-}
-
 std::vector<double> loggrid(double lo, double hi, int n)
 {
     std::vector<double> r(n);
@@ -214,6 +200,21 @@ ProblemSpec draw_problem(std::uint64_t seed, std::string const& family, std::str
     s.geometry = r.pick(stems);
     if (hint == "field" && r.coin(0.5))
         s.geometry = r.coin() ? "field-layers" : "simple-cms";
+    else if (r.coin(0.25))
+    {
+        // generated nested geometry (orangeinp API: boxes/spheres/cylinders/cones/prisms,
+        // translated and rotated daughter universes up to depth 3)
+        std::string key = "gen:" + std::to_string(r.integer(0, 999999));
+        try
+        {
+            if (load_geometry(key))
+                s.geometry = key;
+        }
+        catch (std::exception const&)
+        {
+            // construction refused by the library: keep the bundled geometry
+        }
+    }
     auto geo = load_geometry(s.geometry);
     int nvol = int(geo->num_volumes());
 
